@@ -7,13 +7,15 @@ import Sidetree.Drv.Window
 import Sidetree.Drv.Hash
 import Sidetree.Drv.Patch
 import Sidetree.Drv.Compose
+import Sidetree.Drv.Apply
 
 open Sidetree
 
 def handlers : List (String × (Json → Json)) :=
   [("window", Drv.window), ("jcs", Drv.jcs), ("num", Drv.num), ("mh", Drv.mh), ("commit", Drv.commit),
    ("validate", Drv.validate), ("origdoc", Drv.origdoc),
-   ("compose", Drv.compose), ("protect", Drv.protect), ("patchrt", Drv.patchrt)]
+   ("compose", Drv.compose), ("protect", Drv.protect), ("patchrt", Drv.patchrt),
+   ("parse", Drv.parseKind), ("getters", Drv.gettersKind), ("apply", Drv.applyKind)]
 
 def answer (line : String) : String :=
   let cs := line.toList
